@@ -20,6 +20,21 @@ RUNNERS = ["ptrace", "unshare", "cbefore", "cafter"]
 def run(ctx):
     import vlib
     t0 = time.time()
+    # build the driver and the probe while TLC runs (the machine is shared: every second counts)
+    import threading
+    built = {}
+
+    def build():
+        try:
+            # the probe and the driver share the family name: build the probe under another file name
+            pr = ctx.path("bin", "limits-probe")
+            ctx.sh(["gcc", "-static", "-O1", "-Wall", "-o", pr, os.path.join(vlib.VERIF, "probes", "limits.c")], check=True)
+            built["probe"] = pr
+            ctx.build_vdrive("limits")
+        except Exception as e:      # re-raised in the main thread
+            built["err"] = e
+    th = threading.Thread(target=build)
+    th.start()
     r = ctx.tlc("LimitsCollector_MC", cfg=ctx.pick("LimitsCollector_MCquick.cfg", "LimitsCollector_MC.cfg"),
                 workers=4, timeout=600)
     ctx.tlc_ok("LimitsCollector MC", r)
@@ -37,7 +52,11 @@ def run(ctx):
     for rec in records:
         nm = rec["name"].split(".")
         cpu_pair = nm[0] != "z" and all(x == "z" for x in nm[2:7]) and nm[7] == "core"
-        if rec["dev"] <= lim or cpu_pair:
+        full = rec["name"] in ("s.hi.s.s.s.s.s.nocore", "b.b.b.b.b.b.s.nocore")   # every entry of the slice present
+        if full:
+            for ru in RUNNERS:
+                ess.append(dict(rec, runner=ru))
+        elif rec["dev"] <= lim or cpu_pair:
             if ctx.quick() and rec["dev"] > 0:
                 k += 1
                 rs = [RUNNERS[k % 4]]            # rotate the runner over the records (and the seed)
@@ -75,10 +94,10 @@ def run(ctx):
         else:
             c_cases = [dict((k_, c[k_]) for k_ in ("n", "volume", "chunk", "delay_us"))]
 
-    # the probe and the driver share the family name: build the probe under another file name
-    probe = ctx.path("bin", "limits-probe")
-    ctx.sh(["gcc", "-static", "-O1", "-Wall", "-o", probe, os.path.join(vlib.VERIF, "probes", "limits.c")], check=True)
-    ctx.build_vdrive("limits")
+    th.join()
+    if "err" in built:
+        raise built["err"]
+    probe = built["probe"]
     budget = max(ctx.pick(55, 380) - (time.time() - t0), 10)
     cap_ms = 30000
     ctx.vdrive("limits", ["run", _w(ctx, "rl.ndjson", rl_cases), _w(ctx, "v.ndjson", v_cases), _w(ctx, "c.ndjson", c_cases),
